@@ -29,6 +29,7 @@
 //	pc.readFrom.return(i)   pc.readFrom.return(timeout|closed)      i = ordinal of the datagram, 1-based
 //	pc.writeTo(i)   pc.close                                        i = ordinal of the written datagram
 //	lis.close.enter   pc.close.enter                                logged BEFORE Close takes effect (lis.close / pc.close: after)
+//	conn(j).setReadDeadline.enter(past|future|zero)   pc.setReadDeadline.enter(…)   logged BEFORE the deadline takes effect
 //
 // The client end of a dialled pipe is named "cli(j)"; an object with the empty name logs nothing.
 // A harness adds its own events (srv.started, handler.enter(k), shutdown.call, …) with Log.Point
